@@ -303,6 +303,13 @@ and checks them against both operands) is, as translated from the current Python
 theorem bridge_join_begin_apply (j : JoinOp) (l r : Rel) : Gen.Join_begin_apply j l r = joinBeginApply j l r :=
   Bridge.Join_begin_apply_eq j l r
 
+/-- Tie to the source: `Join.applied_common_columns` - the automatic resolution of a join's common columns (KEY columns
+both operands have, capped by `max_columns`, containing `min_columns`) that `join_common_columns_resolved` is about - is,
+as translated from the current Python source on this run, the model's. -/
+theorem bridge_join_applied_common_columns (j : JoinOp) (lcols rcols : Cols) :
+    Gen.Join_applied_common_columns j lcols rcols = j.appliedCommonColumns lcols rcols :=
+  Bridge.Join_applied_common_columns_eq j lcols rcols
+
 /-- Tie to the source: `Join._finish_apply` (join-identity short-cuts, the refusal of operands in different engines and
 of an unsupported predicate), as translated from the current Python source on this run, is the model's. -/
 theorem bridge_join_finish_apply (j : JoinOp) (l r : Rel) :
